@@ -81,4 +81,74 @@ func init() {
 		Old: "\tdata, _ = m.Bytes(string(mediatype), data)\n\tbase64Len := len(\";base64\") + base64.StdEncoding.EncodedLen(len(data))\n",
 		New: "\tbase64Len := len(\";base64\") + base64.StdEncoding.EncodedLen(len(data))\n\tdata, _ = m.Bytes(string(mediatype), data)\n",
 		Rule: "R18.12", Construct: "is the length of the payload it is compared for"})
+	mutant(&Mutant{Name: "c20-backup-name-not-compared-with-other-inputs", Property: "C20", File: "cmd/minify/main.go",
+		Old: "\t\t\t\tif _, ok := srcs[backup]; ok {", New: "\t\t\t\tif _, ok := srcs[task.dst]; ok && i != j {",
+		Rule: "R20.12", Construct: "looked up among the recorded srcs"})
+	mutant(&Mutant{Name: "c20-backup-name-compared-as-spelled", Property: "C20", File: "cmd/minify/main.go",
+		Old: "backup := abs(task.dst + \".bak\")", New: "backup := task.dst + \".bak\"",
+		Rule: "R20.12", Construct: "looked up among the recorded dsts"})
+	mutant(&Mutant{Name: "c04-box-shadow-with-var-counted-by-position", Property: "C04", File: "css/css.go",
+		Old: "(values[i].Fun == Var || values[i].Fun == Attr || values[i].Fun == Env) {\n\t\t\t\t\t\t// may stand for the colour or for several lengths, the position of the zeros is unknown\n\t\t\t\t\t\tnumbers = numbers[:0]\n", New: "(values[i].Fun == Var || values[i].Fun == Attr || values[i].Fun == Env) {\n",
+		Rule: "R04.26", Construct: "only from a shadow without substitution functions"})
+	mutant(&Mutant{Name: "c01-rewritten-optional-chain-loses-its-parentheses", Property: "C01", File: "js/js.go",
+		Old: "\t\t\tif js.OpCall <= prec && isOptionalChain(expr.X) {", New: "\t\t\tif js.OpCall <= prec && false {",
+		Rule: "R01.48", Construct: "content printed without parentheses#1"})
+	mutant(&Mutant{Name: "c09-rewritten-optional-chain-loses-its-parentheses", Property: "C09", File: "js/js.go",
+		Old: "\t\t\tif js.OpCall <= prec && isOptionalChain(expr.X) {", New: "\t\t\tif js.OpCall <= prec && false {",
+		Rule: "R09.26", Construct: "content printed without parentheses#1"})
+	mutant(&Mutant{Name: "c01-parenthesised-string-statement-becomes-directive", Property: "C01", File: "js/js.go",
+		Old: "\t\t\tif lit, ok := innerExpr(group).(*js.LiteralExpr); ok && lit.TokenType == js.StringToken {\n\t\t\t\t// (\"use strict\") is not a directive, without its parentheses it would be\n\t\t\t\tm.write(openParenBytes)\n\t\t\t\tm.groupedStmt = true\n\t\t\t}\n", New: "\t\t\t_ = group\n",
+		Rule: "R01.49", Construct: "(a) a parenthesised string keeps its parentheses"})
+	mutant(&Mutant{Name: "c01-destructuring-declaration-dropped-with-its-block", Property: "C01", File: "js/stmtlist.go",
+		Old: "\t\t\t\t\tif _, ok := item.Binding.(*js.Var); !ok && item.Default != nil {\n\t\t\t\t\t\t// destructuring throws for null and undefined, and runs getters and iterators\n\t\t\t\t\t\treturn blockStmt\n\t\t\t\t\t}\n", New: "",
+		Rule: "R01.50", Construct: "replaced by its initialisers only for plain names"})
+	mutant(&Mutant{Name: "c01-regexp-comma-unescaped", Property: "C01", File: "js/util.go",
+		Old: "\ttrue, true, true, true, true, false, true, true, // (, ), *, +, \",\", ., /\n", New: "\ttrue, true, true, true, false, false, true, true, // (, ), *, +, ., /\n",
+		Rule: "R01.7", Construct: "regexpEscapeTable[',']"})
+	mutant(&Mutant{Name: "c03-rtc-end-tag-omitted-before-rt", Property: "C03", File: "html/html.go",
+		Old: "(next.Hash == Rb || next.Hash == Rtc || t.Hash != Rtc && (next.Hash == Rt || next.Hash == Rp))", New: "(next.Hash == Rb || next.Hash == Rtc || next.Hash == Rt || next.Hash == Rp)",
+		Rule: "R03.21", Construct: "ruby end tag omitted only in front of a start tag that closes the element"})
+	mutant(&Mutant{Name: "c16-tag-pairs-removed-despite-keep-end-tags", Property: "C16", File: "html/html.go",
+		Old: "if !hasAttributes && !o.KeepEndTags && (!o.KeepDocumentTags", New: "if !hasAttributes && (!o.KeepDocumentTags",
+		Rule: "R16.3", Construct: "html.KeepEndTags ⇒ no removal of a start and end tag pair"})
+	mutant(&Mutant{Name: "c02-top-level-renamer-ignores-with", Property: "C02", File: "js/js.go",
+		Old: "newRenamer(!ast.Scope.HasWith && !o.KeepVarNames, !o.useAlphabetVarNames)", New: "newRenamer(!o.KeepVarNames, !o.useAlphabetVarNames)",
+		Rule: "R02.14", Construct: "starts with the switch of its scope"})
+	mutant(&Mutant{Name: "c05-infinite-coordinate-formatted", Property: "C05", File: "svg/pathdata.go",
+		Old: "\t\tif math.IsInf(f, 0) || math.IsNaN(f) {\n", New: "\t\tif math.IsNaN(f) {\n",
+		Rule: "R05.26", Construct: "formatted coordinate#1 is finite"})
+	mutant(&Mutant{Name: "c09-kept-octal-escape-in-a-template-literal", Property: "C09", File: "js/util.go",
+		Old: "\t\t\t} else if b[i+1] == '7' && i+2 < len(b) && b[i+2] == '4' && isScriptMarkup(b[i+3:]) || b[i+1] == '0' && i+3 < len(b) && b[i+2] == '7' && b[i+3] == '4' && isScriptMarkup(b[i+4:]) {\n\t\t\t\tallowTemplate = false // the octal escape of < is kept in front of /script and !--, which a template literal does not allow\n", New: "",
+		Rule: "R09.20", Construct: "kept octal escape excludes a template literal"})
+	mutant(&Mutant{Name: "c04-escaped-space-trimmed-from-import-url", Property: "C04", File: "css/css.go",
+		Old: "\t\t\t\t\tif n%2 == 1 {\n\t\t\t\t\t\tbreak // an escaped space is part of the URL\n\t\t\t\t\t}\n", New: "",
+		More: [][2]string{{"\t\t\t\t\tn := 0\n\t\t\t\t\tfor a <= b-1-n && url[b-1-n] == '\\\\' {\n\t\t\t\t\t\tn++\n\t\t\t\t\t}\n", ""}},
+		Rule: "R04.27", Construct: "backward trim#1 stops at an escaped space"})
+	mutant(&Mutant{Name: "c04-exponent-number-sent-to-decimal", Property: "C04", File: "css/css.go",
+		Old: "\tif bytes.IndexByte(num, 'e') != -1 || bytes.IndexByte(num, 'E') != -1 {\n\t\treturn num\n\t}\n\treturn minify.Decimal(num, c.o.Precision)", New: "\tif bytes.IndexByte(num, 'E') != -1 {\n\t\treturn num\n\t}\n\treturn minify.Decimal(num, c.o.Precision)",
+		Rule: "R04.28", Construct: "only for a number without an exponent"})
+	mutant(&Mutant{Name: "c16-exponent-number-sent-to-decimal", Property: "C16", File: "css/css.go",
+		Old: "\tif bytes.IndexByte(num, 'e') != -1 || bytes.IndexByte(num, 'E') != -1 {\n\t\treturn num\n\t}\n\treturn minify.Decimal(num, c.o.Precision)", New: "\treturn minify.Decimal(num, c.o.Precision)",
+		Rule: "R16.8", Construct: "only for a number without an exponent"})
+	mutant(&Mutant{Name: "c05-dropped-element-resets-bracket-count", Property: "C05", File: "svg/svg.go",
+		Old: " && t.TokenType != xml.StartTagToken && (t.TokenType != xml.CommentToken", New: " && (t.TokenType != xml.CommentToken",
+		Rule: "R05.21", Construct: "survives a whole element that is dropped"})
+	mutant(&Mutant{Name: "c18-length-counted-with-another-table", Property: "C18", File: "common.go",
+		Old: "\t\tif parse.DataURIEncodingTable[c] {", New: "\t\tif parse.URLEncodingTable[c] {",
+		Rule: "R18.13", Construct: "is the encoder's"})
+	mutant(&Mutant{Name: "c04-negative-hue-not-wrapped", Property: "C04", File: "css/css.go",
+		Old: "\t\t\t\t\t\tif vals[0] < 0.0 {\n\t\t\t\t\t\t\tvals[0] = 1.0 + vals[0]\n\t\t\t\t\t\t}\n", New: "",
+		Rule: "R04.29", Construct: "wrapped into [0,1) before the conversion"})
+	mutant(&Mutant{Name: "c01-sixteen-digit-keys-become-numbers", Property: "C01", File: "js/util.go",
+		Old: "\tif 15 < len(b) {", New: "\tif 16 < len(b) {",
+		Rule: "R01.30", Construct: "only for canonical numeric strings"})
+	mutant(&Mutant{Name: "c05-first-set-of-a-smooth-run-becomes-a-line", Property: "C05", File: "svg/pathdata.go",
+		Old: "if (cmd == 'C' || cmd == 'c' || i == 0 && i+di >= n) && (cp1x == p.x", New: "if (cmd == 'C' || cmd == 'c' || i == 0 || i+di >= n) && (cp1x == p.x",
+		Rule: "R05.10", Construct: "cx,cy: curve replaced by a line (sets of a smooth command)"})
+	mutant(&Mutant{Name: "c09-arrow-function-printed-with-the-for-flag-cleared", Property: "C09", File: "js/js.go",
+		Old: "\tcase *js.ArrowFunc:\n\t\tparentGroupedStmt := m.groupedStmt\n\t\tm.groupedStmt = false\n\t\tm.minifyArrowFunc(expr)\n\t\tm.groupedStmt = parentGroupedStmt\n", New: "\tcase *js.ArrowFunc:\n\t\tparentInFor, parentGroupedStmt := m.inFor, m.groupedStmt\n\t\tm.inFor, m.groupedStmt = false, false\n\t\tm.minifyArrowFunc(expr)\n\t\tm.inFor, m.groupedStmt = parentInFor, parentGroupedStmt\n",
+		Rule: "R09.6", Construct: "js.jsMinifier.minifyExpr/cleared region"})
+	mutant(&Mutant{Name: "c03-table-part-state-in-one-boolean", Property: "C03", File: "html/html.go",
+		Old: "\t\t\t} else if t.Hash == Colgroup {\n\t\t\t\tinColgroup = t.TokenType == html.StartTagToken", New: "\t\t\t} else if t.Hash == Colgroup || t.Hash == Tbody {\n\t\t\t\tinColgroup = t.TokenType == html.StartTagToken",
+		Rule: "R03.22", Construct: "state of an open table part is not a single boolean"})
 }
